@@ -18,10 +18,12 @@ Modelling assumptions, all stated as explicit hypotheses:
   required only *at the arguments the code passes* and say that the library
   function returns the exact value (a square root squares back, a cube root cubes back).
 
-Three statements of the property are FALSE on the current source; each is kept at
-full strength in a comment, proved under the additional guard as `…_partial`, and
-refuted on a concrete witness (`…_defect`):
-  `divp_negation_guard_defect`, `cubic_real_branch_defect`, `color4_int_alpha_defect`.
+History: three statements of the property were FALSE on the source as first verified (divp/modp
+when `y - 1 - x` overflowed; solveNormalizedCubic at p = 0, q > 0; the Color4 integer wrappers
+scaling by `float (max)`).  They were repaired in /repo (commits 7d4bca4, 7563d4d, 9e7d4a2), the
+models below mirror the repaired code, the formerly `_partial` theorems are now full, and the
+former failing inputs are theorems (`divp_former_defect_fixed`, `cubic_former_defect_fixed`,
+`color4_int_alpha_fixed`).  The correspondence obligations that found the defects are unchanged.
 -/
 set_option linter.unusedSectionVars false
 set_option linter.unusedVariables false
@@ -89,34 +91,42 @@ theorem divs_mods_int32 (x y : Int) (hx : inInt32 x = true) (hy : inInt32 y = tr
 example : inInt32 (-2147483647) = true ∧ inInt32 2147483647 = true ∧
     divs32 (-2147483647) 2147483647 = some (-1) := by decide
 
-/-
-FULL STATEMENT of the property for divp/modp (FALSE, see `divp_negation_guard_defect`):
-  ∀ x y in int range, y ≠ 0, every *negation* the code performs representable
-    → divp32 x y = some (x / y) ∧ modp32 x y = some (x % y).
-What holds: the same conclusion when *no intermediate value* overflows; for `divp` that is
-exactly  y ≠ INT_MIN ∧ (x < 0 → |y| - x ≤ 2^31)  — the sum `y - 1 - x` (resp. `-y - 1 - x`)
-is an intermediate that the "negation" guard does not cover.
--/
-theorem divp_modp_int32_partial (x y : Int) (hx : inInt32 x = true) (hy : inInt32 y = true) (hy0 : y ≠ 0) :
-    (noOverflow (divpSteps x y) = true ↔
-      y ≠ -2147483648 ∧ (x < 0 → (if y ≥ 0 then y else -y) - x ≤ 2147483648)) ∧
-    (noOverflow (divpSteps x y) = true → divp32 x y = some (x / y)) ∧
-    (noOverflow (modpSteps x y) = true → modp32 x y = some (x % y)) := by
-  refine ⟨divp_noOverflow_iff x y hx hy, fun h => ?_, fun h => ?_⟩
-  · rw [divp32_eq x y hy0 hx hy h, divp_eq_ediv x y hy0]
-  · rw [modp32_eq x y hy0 hx hy h, modp_eq_emod x y hy0]
+/-- 32-bit `divp/modp` (repaired code), at full strength.  For every int pair with y ≠ 0:
+* an intermediate overflows exactly for y = INT_MIN (the negation `-y`) and for
+  (x, y) = (INT_MIN, -1) (the final `1 + q`; the quotient 2^31 is not an int);
+* the *negations* overflow exactly for y = INT_MIN;
+* whenever no negation overflows and the Euclidean quotient is representable, the machine
+  evaluation returns divp = x / y and modp = x % y (Euclidean: 0 ≤ modp < |y|).  For modp this holds
+  through the wrapped product `y * divp` (e.g. x = INT_MIN + 1, y = 3, where the mathematical
+  product -2147483649 is not an int; the compiled code wraps and the check replays such pairs).
+Excluded inputs, complete list: y = 0; y = INT_MIN; (INT_MIN, -1). -/
+theorem divp_modp_int32 (x y : Int) (hx : inInt32 x = true) (hy : inInt32 y = true) (hy0 : y ≠ 0) :
+    (noOverflow (divpSteps x y) = true ↔ y ≠ -2147483648 ∧ ¬ (x = -2147483648 ∧ y = -1)) ∧
+    (noOverflow (divpNegations x y) = true ↔ y ≠ -2147483648) ∧
+    (noOverflow (divpNegations x y) = true → inInt32 (x / y) = true →
+      divp32 x y = some (x / y) ∧ modp32 x y = some (x % y) ∧ 0 ≤ x % y ∧ x % y < |y|) := by
+  refine ⟨divp_noOverflow_iff x y hx hy, divpNegations_iff x y hx hy, fun hn hq => ?_⟩
+  have hy1 : y ≠ -2147483648 := (divpNegations_iff x y hx hy).mp hn
+  have hno : noOverflow (divpSteps x y) = true := by
+    rw [divp_noOverflow_iff x y hx hy]
+    refine ⟨hy1, ?_⟩
+    rintro ⟨h1, h2⟩
+    subst h1; subst h2
+    exact absurd hq (by decide)
+  refine ⟨?_, modp32_eq_wrap x y hy0 hx hy hno, Int.emod_nonneg x hy0, Int.emod_lt_abs x hy0⟩
+  rw [divp32_eq x y hy0 hx hy hno, divp_eq_ediv x y hy0]
 
-example : noOverflow (modpSteps (-7) 2) = true ∧ modp32 (-7) 2 = some 1 := by decide
+example : noOverflow (divpNegations (-2147483647) 3) = true ∧ inInt32 ((-2147483647 : Int) / 3) = true ∧
+    divp32 (-2147483647) 3 = some (-715827883) ∧ modp32 (-2147483647) 3 = some 2 := by decide
 
-/-- GENUINE DEFECT: x = -5, y = INT_MAX.  No negation overflows, but `y - 1 - x = 2^31 + 3` does;
-the wrapped machine evaluation returns divp = 0, modp = -5 where Euclidean division gives
--1 and 2147483642.  (Replayed on the real code by the check: key `divp:x=-5,y=2147483647`.) -/
-theorem divp_negation_guard_defect :
-    inInt32 (-5) = true ∧ inInt32 2147483647 = true ∧
-    noOverflow (divpNegations (-5) 2147483647) = true ∧
-    noOverflow (divpSteps (-5) 2147483647) = false ∧
-    divp32 (-5) 2147483647 = some 0 ∧ modp32 (-5) 2147483647 = some (-5) ∧
-    (-5 : Int) / 2147483647 = -1 ∧ (-5 : Int) % 2147483647 = 2147483642 := by decide
+/-- the former defect input x = -5, y = INT_MAX (the old code returned divp = 0, modp = -5 because
+`y - 1 - x` overflowed): no intermediate overflows any more and the Euclidean answer comes back.
+(Replayed on the real code by the check: pair (-5, 2147483647) is always in the grid.) -/
+theorem divp_former_defect_fixed :
+    noOverflow (divpSteps (-5) 2147483647) = true ∧ noOverflow (modpSteps (-5) 2147483647) = true ∧
+    divp32 (-5) 2147483647 = some (-1) ∧ modp32 (-5) 2147483647 = some 2147483642 ∧
+    (-5 : Int) / 2147483647 = -1 ∧ (-5 : Int) % 2147483647 = 2147483642 ∧
+    divp32 (-2147483647) 3 = some (-715827883) ∧ divp32 (-1073741824) 1073741825 = some (-1) := by decide
 
 /-! ## ImathFun.h / ImathMath.h: definitional laws -/
 section Laws
@@ -293,54 +303,32 @@ example (F : CubicFns ℚ) : solveNormalizedCubic F 3 3 1 = (1, [-3 / 3, -3 / 3,
   (solveNormalizedCubic_triple_root F 3 3 1 (by unfold cubicD cubicP cubicQ; norm_num)
     (by unfold cubicP; norm_num)).1
 
-/-
-FULL STATEMENT for the D > 0 branch (FALSE, see `cubic_real_branch_defect`):
-  0 < D → sqrt exact at D → cube root exact at its argument → the value returned is a root.
-What holds: the same with the extra hypothesis `cardanoA ≠ 0`, i.e. ¬ (p = 0 ∧ q > 0)
-(`cardanoA_zero_iff`).
--/
-theorem solveNormalizedCubic_real_partial (F : CubicFns α) (r s t : α) (hD : 0 < cubicD r s t)
+/-- `solveNormalizedCubic`, D > 0 (one real root), at full strength: the value returned is a root
+of x³ + r x² + s x + t whenever `sqrt` is exact at D and the cube root is exact at its argument.
+(Before /repo commit 7563d4d this needed the side condition ¬ (p = 0 ∧ q > 0).) -/
+theorem solveNormalizedCubic_real (F : CubicFns α) (r s t : α) (hD : 0 < cubicD r s t)
     (hs : F.sqrt (cubicD r s t) * F.sqrt (cubicD r s t) = cubicD r s t ∧ 0 ≤ F.sqrt (cubicD r s t))
     (hcs : (F.copysign1 (cardanoA F r s t) = 1 ∨ F.copysign1 (cardanoA F r s t) = -1) ∧
       0 ≤ F.copysign1 (cardanoA F r s t) * cardanoA F r s t)
     (hpow : F.pow (F.copysign1 (cardanoA F r s t) * cardanoA F r s t) (1 / 3) *
         F.pow (F.copysign1 (cardanoA F r s t) * cardanoA F r s t) (1 / 3) *
         F.pow (F.copysign1 (cardanoA F r s t) * cardanoA F r s t) (1 / 3) =
-      F.copysign1 (cardanoA F r s t) * cardanoA F r s t)
-    (hA : cardanoA F r s t ≠ 0) :
+      F.copysign1 (cardanoA F r s t) * cardanoA F r s t) :
     ∃ x, solveNormalizedCubic F r s t = (1, [x]) ∧ x * x * x + r * (x * x) + s * x + t = 0 :=
-  Roots.solveNormalizedCubic_real_partial F r s t hD hs hcs hpow hA
+  Roots.solveNormalizedCubic_real F r s t hD hs hcs hpow
 
-/-- the cube-root argument of the D > 0 branch vanishes exactly at p = 0, q > 0 -/
-theorem cardanoA_zero_iff (F : CubicFns α) (r s t : α) (hD : 0 < cubicD r s t)
+/-- the cube-root argument of the D > 0 branch is never 0, so `v = -p / (3 u)` never divides by 0 -/
+theorem cardanoA_never_zero (F : CubicFns α) (r s t : α) (hD : 0 < cubicD r s t)
     (hs : F.sqrt (cubicD r s t) * F.sqrt (cubicD r s t) = cubicD r s t ∧ 0 ≤ F.sqrt (cubicD r s t)) :
-    cardanoA F r s t = 0 ↔ cubicP r s = 0 ∧ 0 < cubicQ r s t := Roots.cardanoA_eq_zero_iff F r s t hD hs
+    cardanoA F r s t ≠ 0 := Roots.cardanoA_ne_zero F r s t hD hs
 
-/-- GENUINE DEFECT (x³ + 1 = 0): the D > 0 branch is taken, the cube-root argument is exactly 0,
-`u = 0`, `v = -p / (3 u)` divides by zero (0/0: NaN in IEEE arithmetic, 0 in a field), and the
-value returned is not a root. (Replayed on the real code: key `solveNormalizedCubic:r=0,s=0,t=1`.) -/
-theorem cubic_real_branch_defect (F : CubicFns α)
-    (hs : F.sqrt (1 / 4) = 1 / 2)
-    (hcs : F.copysign1 0 = 1 ∨ F.copysign1 0 = -1)
-    (hpow : F.pow 0 (1 / 3) * F.pow 0 (1 / 3) * F.pow 0 (1 / 3) = 0) :
-    0 < cubicD (0 : α) 0 1 ∧ cardanoA F 0 0 1 = 0 ∧ 3 * realRoot F (cardanoA F 0 0 1) 3 = 0 ∧
-    ∀ x, solveNormalizedCubic F 0 0 1 = (1, [x]) → x * x * x + 0 * (x * x) + 0 * x + 1 ≠ 0 :=
-  Roots.cubic_real_branch_defect F hs hcs hpow
-
-/-- The proposed repair (`Model.Roots.solveNormalizedCubicStable`: cube-root argument
-`q > 0 ? -q/2 - sqrt D : -q/2 + sqrt D`) satisfies the FULL statement: for D > 0 the value returned
-is always a root, without the side condition of `solveNormalizedCubic_real_partial`.  The check
-executes this variant in the correspondence only when ImathRoots.h has exactly this form. -/
-theorem solveNormalizedCubicStable_real (F : CubicFns α) (r s t : α) (hD : 0 < cubicD r s t)
-    (hs : F.sqrt (cubicD r s t) * F.sqrt (cubicD r s t) = cubicD r s t ∧ 0 ≤ F.sqrt (cubicD r s t))
-    (hcs : (F.copysign1 (cardanoAStable F r s t) = 1 ∨ F.copysign1 (cardanoAStable F r s t) = -1) ∧
-      0 ≤ F.copysign1 (cardanoAStable F r s t) * cardanoAStable F r s t)
-    (hpow : F.pow (F.copysign1 (cardanoAStable F r s t) * cardanoAStable F r s t) (1 / 3) *
-        F.pow (F.copysign1 (cardanoAStable F r s t) * cardanoAStable F r s t) (1 / 3) *
-        F.pow (F.copysign1 (cardanoAStable F r s t) * cardanoAStable F r s t) (1 / 3) =
-      F.copysign1 (cardanoAStable F r s t) * cardanoAStable F r s t) :
-    ∃ x, solveNormalizedCubicStable F r s t = (1, [x]) ∧ x * x * x + r * (x * x) + s * x + t = 0 :=
-  Roots.solveNormalizedCubicStable_real F r s t hD hs hcs hpow
+/-- the former defect input x³ + 1 = 0 (r = s = 0, t = 1; the old code returned NaN): the root -1
+is returned.  (Replayed on the real code by the check: the (x - h)³ + k family is always generated.) -/
+theorem cubic_former_defect_fixed (F : CubicFns α)
+    (hs : F.sqrt (1 / 4) = 1 / 2) (hcs : F.copysign1 (-1) = -1) (hpow : F.pow 1 (1 / 3) = 1) :
+    cardanoA F 0 0 1 = -1 ∧ solveNormalizedCubic F 0 0 1 = (1, [-1]) ∧
+    (-1 : α) * (-1) * (-1) + 0 * ((-1) * (-1)) + 0 * (-1) + 1 = 0 :=
+  Roots.cubic_former_defect_fixed F hs hcs hpow
 
 /-- `solveNormalizedCubic`, D ≤ 0 (complex intermediates): two (D = 0) or three (D < 0) values are
 written and each of them is a root -/
@@ -364,52 +352,22 @@ end RootsSec
 def exF (sq cs pw : ℚ) (csq cpw : ℚ × ℚ) (s3 : ℚ) : CubicFns ℚ :=
   ⟨fun _ => sq, fun _ => cs, fun _ _ => pw, fun _ => csq, fun _ _ => cpw, s3⟩
 
-/-- non-vacuity of `solveNormalizedCubic_real_partial`: y³ + 6y - 7 (root 1; D = 81/4, u = 2, v = -1) -/
+/-- non-vacuity of `solveNormalizedCubic_real`: y³ + 6y - 7 (root 1; q = -7 ≤ 0, D = 81/4,
+A = 7/2 + 9/2 = 8, u = 2, v = -1) -/
 example : ∃ x, solveNormalizedCubic (exF (9 / 2) 1 2 (0, 0) (0, 0) 0) 0 6 (-7) = (1, [x]) ∧
     x * x * x + 0 * (x * x) + 6 * x + -7 = 0 := by
   have hD : cubicD (0 : ℚ) 6 (-7) = 81 / 4 := by unfold cubicD cubicP cubicQ; norm_num
   have hA : cardanoA (exF (9 / 2) 1 2 (0, 0) (0, 0) 0) 0 6 (-7) = 8 := by
-    unfold cardanoA cubicQ exF; norm_num
-  apply solveNormalizedCubic_real_partial
-  · rw [hD]; norm_num
-  · rw [hD]; simp only [exF]; norm_num
-  · rw [hA]; simp only [exF]; norm_num
-  · rw [hA]; simp only [exF]; norm_num
-  · rw [hA]; norm_num
-
-/-- non-vacuity of `solveNormalizedCubicStable_real` at the point where the original fails:
-x³ + 1 (p = 0, q = 1, D = 1/4): A = -1/2 - 1/2 = -1, u = -1, v = 0, x = -1. -/
-example : ∃ x, solveNormalizedCubicStable (exF (1 / 2) (-1) 1 (0, 0) (0, 0) 0) 0 0 1 = (1, [x]) ∧
-    x * x * x + 0 * (x * x) + 0 * x + 1 = 0 := by
-  have hD : cubicD (0 : ℚ) 0 1 = 1 / 4 := by unfold cubicD cubicP cubicQ; norm_num
-  have hA : cardanoAStable (exF (1 / 2) (-1) 1 (0, 0) (0, 0) 0) 0 0 1 = -1 := by
-    unfold cardanoAStable cubicQ; rw [hD]; simp only [exF]; norm_num
-  apply solveNormalizedCubicStable_real
+    unfold cardanoA cubicQ; rw [hD]; simp only [exF]; norm_num
+  apply solveNormalizedCubic_real
   · rw [hD]; norm_num
   · rw [hD]; simp only [exF]; norm_num
   · rw [hA]; simp only [exF]; norm_num
   · rw [hA]; simp only [exF]; norm_num
 
-/-- the FULL statement of the D > 0 branch is false: a counter-model over ℚ at (r,s,t) = (0,0,1) -/
-theorem cubic_real_full_statement_false :
-    ¬ (∀ (F : CubicFns ℚ) (r s t : ℚ), 0 < cubicD r s t →
-        (F.sqrt (cubicD r s t) * F.sqrt (cubicD r s t) = cubicD r s t ∧ 0 ≤ F.sqrt (cubicD r s t)) →
-        ((F.copysign1 (cardanoA F r s t) = 1 ∨ F.copysign1 (cardanoA F r s t) = -1) ∧
-          0 ≤ F.copysign1 (cardanoA F r s t) * cardanoA F r s t) →
-        (F.pow (F.copysign1 (cardanoA F r s t) * cardanoA F r s t) (1 / 3) *
-          F.pow (F.copysign1 (cardanoA F r s t) * cardanoA F r s t) (1 / 3) *
-          F.pow (F.copysign1 (cardanoA F r s t) * cardanoA F r s t) (1 / 3) =
-          F.copysign1 (cardanoA F r s t) * cardanoA F r s t) →
-        ∃ x, solveNormalizedCubic F r s t = (1, [x]) ∧ x * x * x + r * (x * x) + s * x + t = 0) := by
-  intro h
-  have hD : cubicD (0 : ℚ) 0 1 = 1 / 4 := by unfold cubicD cubicP cubicQ; norm_num
-  have hA : cardanoA (exF (1 / 2) 1 0 (0, 0) (0, 0) 0) 0 0 1 = 0 := by
-    unfold cardanoA cubicQ exF; rw [hD]; norm_num
-  obtain ⟨x, hx, hroot⟩ := h (exF (1 / 2) 1 0 (0, 0) (0, 0) 0) 0 0 1 (by rw [hD]; norm_num)
-    (by rw [hD]; simp only [exF]; norm_num) (by rw [hA]; simp only [exF]; norm_num)
-    (by rw [hA]; simp only [exF]; norm_num)
-  exact (cubic_real_branch_defect (exF (1 / 2) 1 0 (0, 0) (0, 0) 0) rfl (Or.inl rfl)
-    (by simp only [exF]; norm_num)).2.2.2 x hx hroot
+/-- … and on the q > 0 side, at the former defect x³ + 1: A = -1/2 - 1/2 = -1, u = -1, v = 0, x = -1 -/
+example : solveNormalizedCubic (exF (1 / 2) (-1) 1 (0, 0) (0, 0) 0) 0 0 1 = (1, [-1]) :=
+  (cubic_former_defect_fixed (exF (1 / 2) (-1) 1 (0, 0) (0, 0) 0) rfl rfl rfl).2.1
 
 /-- non-vacuity of `solveNormalizedCubic_complex_roots` over ℝ (three real roots, D < 0):
 x³ - 7x + 6 = (x - 1)(x - 2)(x + 3); p = -7, q = 6, D = -100/27, sqrt (D) = (0, 10√3/9),
@@ -506,13 +464,14 @@ example : (rgb2hsvC4I (α := ℚ) (fun n => (n : ℚ) / 255) (fun x => ⌊x * 25
 example : rgb2packedC4 (α := ℚ) (fun x => ⌊x⌋.toNat) (packed2rgbC4 0x80FF0A01) = 0x80FF0A01 :=
   (rgb2packed_packed2rgb_exact (α := ℚ) _ (fun n => by simp) _ (by norm_num)).1
 
-/-- GENUINE DEFECT (exact arithmetic already): `Color4<int>` — the wrappers divide by
-`float (INT_MAX) = 2^31` and multiply by `INT_MAX`; alpha 5 comes back as 4.  (For `short` and
-`unsigned short` `float (max) = max` holds, and the loss of alpha there is a float-rounding effect
-of the same `float (…)` cast, which only the run on the real code shows: keys
-`rgb2hsv:Color4<short>:alpha`, `hsv2rgb:Color4<short>:alpha`, ….) -/
-theorem color4_int_alpha_defect (r g b : Int) :
-    (rgb2hsvC4I (α := ℚ) (fun n => (n : ℚ) / 2147483648) (fun x => ⌊x * 2147483647⌋) ⟨r, g, b, 5⟩).a = 4 :=
-  rgb2hsvC4I_int_alpha_defect r g b
+/-- the former defect `Color4<int>` (the wrappers divided by `float (INT_MAX) = 2^31` but multiplied
+by `INT_MAX`, so that — `scale_mismatch_loses_one` — alpha 5 came back as 4): with
+`double (INT_MAX) = INT_MAX` every alpha is preserved.  For `short` / `unsigned short` the loss was a
+float-rounding effect of the same cast, visible only on the real code; the check sweeps every alpha
+value of every integer element type on each run. -/
+theorem color4_int_alpha_fixed (r g b a : Int) :
+    (rgb2hsvC4I (α := ℚ) (fun n => (n : ℚ) / 2147483647) (fun x => ⌊x * 2147483647⌋) ⟨r, g, b, a⟩).a = a ∧
+    ⌊((5 : Int) : ℚ) / 2147483648 * 2147483647⌋ = 4 :=
+  ⟨rgb2hsvC4I_int_alpha_fixed r g b a, scale_mismatch_loses_one⟩
 
 end ImathVerif.C17
